@@ -415,6 +415,56 @@ func c19SQL(c *Ctx, p *Prog) {
 			}
 		}
 	})
+	if len(table) == 0 {
+		// no table: the operation is chosen by branching on the separator byte; read the mapping off the constant
+		// facts about that byte where each operation constant is selected
+		facts := constFacts(pw, func(v ssa.Value) bool {
+			switch x := v.(type) {
+			case *ssa.Lookup:
+				return isString(x.X.Type())
+			case *ssa.Index:
+				return isString(x.X.Type())
+			}
+			return false
+		})
+		eachInstr(pw, func(b *ssa.BasicBlock, in ssa.Instruction) {
+			phi, ok := in.(*ssa.Phi)
+			if !ok || recvName(phi.Type()) != "operation" {
+				return
+			}
+			for i, e := range phi.Edges {
+				v, ok := constInt(e)
+				if !ok {
+					continue
+				}
+				st := facts[b.Preds[i]]
+				if st.Bot || st.Top || len(st.In) != 1 {
+					continue
+				}
+				for k := range st.In {
+					table[k] = opNames[v]
+				}
+			}
+		})
+		// or stored straight into the part that is returned
+		eachInstr(pw, func(b *ssa.BasicBlock, in ssa.Instruction) {
+			st, ok := in.(*ssa.Store)
+			if !ok || recvName(st.Val.Type()) != "operation" {
+				return
+			}
+			v, ok := constInt(st.Val)
+			if !ok {
+				return
+			}
+			fs := facts[b]
+			if fs.Bot || fs.Top || len(fs.In) != 1 {
+				return
+			}
+			for k := range fs.In {
+				table[k] = opNames[v]
+			}
+		})
+	}
 	var tk []string
 	for k := range table {
 		tk = append(tk, k)
